@@ -2,6 +2,7 @@
 """Confirm a seeded change produced in a scratch worktree and run the checks against it.
 usage: seedtest.py <PID> <worktree> [--checks C01,C02,...] [--keep NAME]"""
 import json, os, subprocess, sys, shutil, time
+VERIF = os.path.dirname(os.path.dirname(os.path.abspath(__file__)))
 
 def sh(cmd, cwd=None, timeout=1800):
     r = subprocess.run(cmd, shell=True, cwd=cwd, capture_output=True, text=True, timeout=timeout)
@@ -11,7 +12,7 @@ def restore_evidence(checks):
     """restore evidence: evidence files are rewritten by every run, also by the runs against the seeded tree;
     re-run the checks on the unchanged tree so that what gets committed describes the unchanged tree"""
     for c in checks or []:
-        sh(f'python3 check/run.py {c} --tier quick', cwd='/verif', timeout=3000)
+        sh(f'python3 check/run.py {c} --tier quick', cwd=VERIF, timeout=3000)
 
 
 def main():
@@ -56,7 +57,7 @@ def main():
             allc = checks or [pid]
             for c in allc:
                 t = time.time()
-                rc, out = sh((f'VERIF_REPO={wt} ' if inplace else '') + f'python3 check/run.py {c}', cwd='/verif', timeout=3000)
+                rc, out = sh((f'VERIF_REPO={wt} ' if inplace else '') + f'python3 check/run.py {c}', cwd=VERIF, timeout=3000)
                 lines = [l for l in out.splitlines() if l.startswith('VIOLATION') or l.startswith('KNOWN') or l.startswith('FRAMEWORK') or l.startswith('  ')]
                 results[c] = {'rc': rc, 'wall': round(time.time() - t, 1), 'lines': lines[:6]}
         finally:
@@ -66,7 +67,7 @@ def main():
     restore_evidence(checks)
     print(json.dumps(report, indent=1))
     if '--keep' in sys.argv or True:
-        d = os.path.join('/verif/seeded', name)
+        d = os.path.join(VERIF, 'seeded', name)
         os.makedirs(d, exist_ok=True)
         for fn in os.listdir(seed):
             p = os.path.join(seed, fn)
